@@ -170,10 +170,18 @@ def build_harness(name, flavour="plain", extra=""):
             return out
         flags = ("-std=c++17 %s -DDISABLE_CLIPBOARD -DSQFVM_BUILD -D%s -I%s/src -I%s/harness %s"
                  % (FLAVOURS[flavour], GUARD, REPO, VERIF, extra))
+        # linked beside its place and moved there in one step: a check that is running the old binary (a shared harness such as h_syntax or
+        # h_sched, rebuilt by another check's run) keeps its file, nobody ever finds a half-written or missing one
+        tmp = "%s.new.%d" % (out, os.getpid())
         rc, o = sh("g++ %s %s -o %s %s %s/librepo.a -ldl -lpthread -lstdc++fs"
-                   % (flags, LINKFLAGS[flavour], out, src, bdir), timeout=1200)
+                   % (flags, LINKFLAGS[flavour], tmp, src, bdir), timeout=1200)
         if rc != 0:
+            try:
+                os.remove(tmp)
+            except OSError:
+                pass
             raise BuildError("harness %s does not compile against the current tree:\n%s" % (name, o[-4000:]))
+        os.replace(tmp, out)
         return out
 
 
